@@ -445,7 +445,20 @@ func nextStep(t *rapid.T, st *tstate, o TravOpts) ([]model.Step, bool) {
 			tmpl := rapid.SampledFrom(renderTemplates).Draw(t, "template")
 			if len(st.marks) > 0 && rapid.Bool().Draw(t, "renderMark") {
 				m := st.marks[0]
-				tmpl = map[string]interface{}{"cur": tmpl, "m": "$" + m + "._gid", "mk": "$" + m + ".k"}
+				// what the template reads of the mark decides whether the marked step is
+				// loaded: one named property, the whole property map, identity fields only
+				switch rapid.IntRange(0, 5).Draw(t, "markTemplate") {
+				case 0, 1:
+					tmpl = map[string]interface{}{"cur": tmpl, "m": "$" + m + "._gid", "mk": "$" + m + ".k"}
+				case 2:
+					tmpl = "$" + m + "._data"
+				case 3:
+					tmpl = map[string]interface{}{"d": "$" + m + "._data", "id": "$" + m + "._gid"}
+				case 4:
+					tmpl = map[string]interface{}{"l": "$" + m + "._label", "id": "$" + m + "._gid", "cur": "_gid"}
+				default:
+					tmpl = []interface{}{"$" + m + "._data.k", "$" + m + ".a.k"}
+				}
 			}
 			return []model.Step{{Op: "render", Template: tmpl}}, true
 		})
